@@ -227,6 +227,11 @@ def run(ctx, configs=None):
                 if isinstance(v, tuple) and v[0] == "bin" and v[1] in ("Eq", "Ge", "Ne", "Lt") and T.is_call(T.peel(v[2], payloads=False), r"Vec::<T, A>::len$") \
                         and T.is_field(T.peel(T.peel(v[2], payloads=False)[2][0]), "to_write"):
                     K = (const_of(v[3]), v[1], bbx, t2)
+                # the same test spelled on the room that is left: `K - len == 0` (a `room()` helper) is `len == K`
+                if isinstance(v, tuple) and v[0] == "bin" and v[1] in ("Eq", "Ne") and T.is_const_int(v[3], 0) and isinstance(v[2], tuple) and v[2][0] == "bin" and v[2][1] == "Sub" \
+                        and T.is_call(T.peel(v[2][3], payloads=False), r"Vec::<T, A>::len$") and T.is_field(T.peel(T.peel(v[2][3], payloads=False)[2][0]), "to_write") \
+                        and const_of(v[2][2]) is not None:
+                    K = (const_of(v[2][2]), v[1], bbx, t2)
         for bbx, t2 in fw.calls():
             if re.search(r"(cmp::min|cmp::Ord::min|Ord>::min|Ord::min)$", cname(t2["func"])) or re.search(r"cmp::Ord::min$", t2["func"]["path"]):
                 for i in (0, 1):
